@@ -244,5 +244,7 @@ def run(cx: Cx):
     check_remove_pairing(cx)
     from .common import include_premises
     include_premises(cx, ['C01'], 'no skips or reruns needs a queue that holds each registered system exactly once')
+    include_premises(cx, ['C02'], "which systems are 'eligible' in a timestep is C02's activation window",
+                     only=lambda o: o.rule == 'R-GUARD' and ('window' in o.key or 'activation' in o.key))
 
 
